@@ -66,15 +66,15 @@ func corpus0(w *world, o *hx.Out, k int) {
 	}
 	// a voter moves its whole balance to itself, to a new account and back
 	s.block(s.tx([]util.Uint160{u(0)}, xferNeo(u(0), u(0), neoOf(u(0)))))
-	s.block(s.tx([]util.Uint160{u(1)}, xferNeo(u(1), u(2), neoOf(u(1))))) // voting account deleted, cx keeps 0 votes
+	s.block(s.tx([]util.Uint160{u(1)}, xferNeo(u(1), u(2), neoOf(u(1)))))            // voting account deleted, cx keeps 0 votes
 	s.block(s.tx([]util.Uint160{ax}, &call{kind: kUnregister, pub: cx.PublicKey()})) // dropped (cache entry stays)
-	s.block(s.tx([]util.Uint160{u(2)}, vote(u(2), cx.PublicKey())))                   // unknown candidate: false
+	s.block(s.tx([]util.Uint160{u(2)}, vote(u(2), cx.PublicKey())))                  // unknown candidate: false
 	s.block(s.tx([]util.Uint160{ax}, &call{kind: kTransfer, src: ax, dst: w.neoH, amt: big64(1000 * gasUnit), data: dPub, dpub: cx.PublicKey()}))
 	s.block(s.tx([]util.Uint160{u(2)}, vote(u(2), cx.PublicKey()))) // LastGasPerVote from the stale cache entry
 	for i := 0; i < w.C+1; i++ {
 		s.block()
 	}
-	s.block(s.tx([]util.Uint160{u(2)}, xferNeo(u(2), u(2), big64(0)))) // claim
+	s.block(s.tx([]util.Uint160{u(2)}, xferNeo(u(2), u(2), big64(0))))               // claim
 	s.block(s.tx([]util.Uint160{ax}, &call{kind: kUnregister, pub: cx.PublicKey()})) // kept: voted
 	half := new(big.Int).Rsh(neoOf(u(2)), 1)
 	s.block(s.tx([]util.Uint160{u(2)}, xferNeo(u(2), u(0), half)))
@@ -88,6 +88,21 @@ func corpus0(w *world, o *hx.Out, k int) {
 	s.block(s.tx([]util.Uint160{u(0)}, xferNeo(u(0), w.treasuryH, big64(3))))
 	s.block()
 	s.block(s.tx([]util.Uint160{u(0)}, xferNeo(u(0), w.treasuryH, big64(1))))
+	// u3's GAS is brought down to exactly the fees of its next transaction: burning them deletes its GAS item
+	{
+		last := s.tx([]util.Uint160{u(3)}, xferNeo(u(3), u(3), big64(0)))
+		f2 := w.buildTx(last)
+		fees2 := f2.SystemFee + f2.NetworkFee
+		bal := w.dump().gas[u(3)]
+		guess := s.tx([]util.Uint160{u(3)}, xferGas(u(3), u(0), new(big.Int).Sub(bal, big64(10*gasUnit))))
+		f1 := w.buildTx(guess)
+		amt := new(big.Int).Sub(bal, big64(f1.SystemFee+f1.NetworkFee+fees2))
+		s.block(s.tx([]util.Uint160{u(3)}, xferGas(u(3), u(0), amt)))
+		if b := w.dump().gas[u(3)]; b != nil && b.Int64() == fees2 {
+			o.Count("corpus:gas-balance-equals-next-fees")
+		}
+		s.block(last)
+	}
 	// Notary
 	h := w.bc.BlockHeight()
 	s.block(s.tx([]util.Uint160{u(0)}, &call{kind: kTransfer, src: u(0), dst: w.notaryH, amt: gasAmt(3), data: dNotary, till: h + 4}))
